@@ -9,7 +9,11 @@ impl kani::Arbitrary for Word {
 impl MemArray {
     /// A memory whose 65536 words are all nondeterministic (fresh heap object; CBMC treats the
     /// contents of an uninitialised allocation as arbitrary).
+    #[cfg(not(verif_native))]
     pub(crate) fn verif_any() -> Self { MemArray(unsafe { Box::<[Word; 1 << 16]>::new_uninit().assume_init() }) }
+    /// native replay of a counterexample (cfg verif_native is set only for `cargo kani playback` runs): a real, zeroed memory
+    #[cfg(verif_native)]
+    pub(crate) fn verif_any() -> Self { MemArray(vec![Word::verif_zero(); 1 << 16].into_boxed_slice().try_into().ok().unwrap()) }
 }
 impl RegFile {
     pub(crate) fn verif_any() -> Self { RegFile(kani::any()) }
